@@ -34,6 +34,10 @@ fn faulty_units() -> Vec<(Unit, FaultKind)> {
         (Unit::raw(b"@"), FaultKind::Syntax),
         (Unit::raw(b":A:B!"), FaultKind::Syntax),
         (Unit::raw(b":B 1 2"), FaultKind::Syntax),
+        // '#', a non-zero digit d and then something that is not d digits is not a block header
+        (Unit::raw(b":B #2"), FaultKind::Syntax),
+        (Unit::raw(b":A:K #9"), FaultKind::Syntax),
+        (Unit::raw(b":A:K #2+1x"), FaultKind::Syntax),
         (Unit::hdr(":Z"), FaultKind::Undefined),
         (Unit::hdr(":E?"), FaultKind::Undefined),
         (Unit::hdr(":A:Z"), FaultKind::Undefined),
